@@ -224,6 +224,8 @@ EXTRA_TEXT = {
            "common point unit (read out); mixed comparisons with an unsigned common rep.",
     "C15": "  Also: integral reps through abs/min/max/clamp/fmod/remainder/hypot/copysign, result units of min/max/clamp for operands of three different units (quantities and "
            "points), exact ties of remainder, rounding at the edge of the floating integer range, inversions with K up to 7e18.",
+    "C17": "  Also: every cv/ref form of the duration in the acceptance queries; for accepted pairs the implicit conversion must compile and equal the corresponding "
+           "quantity's conversion value for value.",
     "C18": "  Also: SI / IEC prefix symbols (Trace_Prefixes.tla), labels of common units element-wise (Trace_CULabels.tla), units with an empty label in the streaming sweep; a program "
            "that reads the labels must link at C++14.",
     "C20": "  The generated text must consist of exactly the code lines and system includes of the closure's files in the emitted order (independent re-reading of the headers); "
